@@ -75,10 +75,10 @@ class Oracle(object):
   def build_reference(self, m, h, op):
     """A brand-new estimator from pristine params, fitted once on pristine
     copies of the last fit's arguments, under another ambient state."""
-    Dp = make_data(m.plan["datasets"][op["data"]])       # pristine regeneration
+    Dp = m.pristine_dataset(op["data"])                  # pristine regeneration (+ the caller's own edits)
     params = copy.deepcopy(h.pristine_params)
     if h.pre is not None:
-      Sp = make_data(m.plan["datasets"][h.pre_data]).S
+      Sp = m.pristine_dataset(h.pre_data).S
       if isinstance(h.pre, list):
         params["preprocessor"] = Sp.tolist()
       elif h.store is not None:
@@ -180,6 +180,8 @@ class Oracle(object):
       raise Violation("args_untouched", "op=%s,arg=%s" % (kind, sorted(set(bad))[0]),
                       "array passed as %s was modified by op %s on %s"
                       % (sorted(set(bad)), kind, h.name if h else "?"))
+    if kind == "mutate_store" and ev.get("outcome") == "ok":
+      self.pristine_S = {}          # the caller changed its data itself: take new reference digests
     bad = self._store_digest(m)
     if bad:
       raise Violation("args_untouched", "op=%s,arg=preprocessor" % kind,
@@ -247,12 +249,23 @@ class Oracle(object):
     touched = set(x for x in (op.get("h"), op.get("h2")) if x is not None)
     if op["op"] == "mutate_handout":
       touched = set(m.handles)          # the mutated matrix belongs to some handle
+    if op["op"] == "mutate_store":
+      # estimators reading through the edited store are undefined until refitted;
+      # the others must not notice (their fitted attributes are still compared)
+      touched = set(hid for hid, hh in m.handles.items() if not hh.defined)
     for hid, hh in m.handles.items():
       if hh.est is None:
         continue
       cur = self._snapshot(m, hh)
-      if hid not in touched and hid in self.snap and self.snap[hid] != cur:
-        a = _first_diff(self.snap[hid], cur)
+      prev = self.snap.get(hid)
+      if prev is not None and ("<pair_distance>" in prev) != ("<pair_distance>" in cur):
+        # the output probe is not taken while a store fault is armed: compare what both have
+        prev = {k_: v_ for k_, v_ in prev.items() if k_ != "<pair_distance>"}
+        cur_cmp = {k_: v_ for k_, v_ in cur.items() if k_ != "<pair_distance>"}
+      else:
+        cur_cmp = cur
+      if hid not in touched and prev is not None and prev != cur_cmp:
+        a = _first_diff(prev, cur_cmp)
         raise Violation("cross_handle", "op=%s,attr=%s" % (op["op"], a),
                         "%s (handle %s) changed (%s) although the operation %s was performed on %s"
                         % (hh.name, hid, a, op["op"], "handle %s" % op.get("h") if "h" in op else "no handle"))
@@ -262,9 +275,14 @@ class Oracle(object):
   def _snapshot(self, m, hh):
     st = dict(state_digest(hh.est))
     if hh.defined and hh.last_fit is not None and not (hh.store is not None and hh.store.armed):
-      D = m.dataset(hh.last_fit["op"]["data"])
-      rs = np_stream(hh.hid, "cross-probe")
-      pairs = D.S[rs.randint(0, D.N, size=(3, 2))]
+      if not hasattr(self, "probe_pairs"):
+        self.probe_pairs = {}
+      pk = (hh.hid, hh.n_fits)
+      if pk not in self.probe_pairs:        # fixed points: the caller may edit its store later
+        D = m.dataset(hh.last_fit["op"]["data"])
+        rs = np_stream(hh.hid, "cross-probe")
+        self.probe_pairs[pk] = np.array(D.S[rs.randint(0, D.N, size=(3, 2))], copy=True)
+      pairs = self.probe_pairs[pk]
       r = _safe(hh.est.pair_distance, pairs)
       st["<pair_distance>"] = r[0] if r[0] != "ok" else digest(r[1])
     return st
@@ -338,7 +356,7 @@ def gen_plan(seed, tier):
   # unknown=True: refits of supervised learners alternate between the full
   # and the partially unknown label vector on the same points
   return gen_history(seed, tier, fresh_p=0.004 if tier == "thorough" else 0.003,
-                     weights=dict(fault=3, interrupt=6), unknown=True, wide_p=0.03, crash_sweep_p=0.08, buffer_p=0.35, view_p=0.3)
+                     weights=dict(fault=3, interrupt=6, mutate_store=4), unknown=True, wide_p=0.03, crash_sweep_p=0.08, buffer_p=0.35, view_p=0.3)
 
 
 def run_plan(plan):
